@@ -113,6 +113,7 @@ func (l *listener) stop() {
 	defer l.m.Unlock()
 	if l.ch != nil {
 		close(l.ch)
+		verifhook.Yield("listener.stop.closed")
 		l.ch = nil
 	}
 }
